@@ -119,6 +119,8 @@ let rec algo_of s : algo = match lst s with
   | [Atom "closeafter"; k] -> AClosePositionsAfterDates (natx k)
   | [Atom "rollafter"; k] -> ARollPositionsAfterDates (natx k)
   | [Atom "replay"; k] -> AReplayTransactions (natx k)
+  | [Atom "updaterisk"; m; h] -> AUpdateRisk (natx m, natx h)
+  | [Atom "hedgerisk1"; m] -> AHedgeRisk1 (natx m)
   | [Atom "useradjust"; a; f; u] -> AUserAdjust (num_of a, bool_of f, bool_of u)
   | [Atom "mock"; id; rs] -> AMock (natx id, List.map bool_of (lst rs))
   | Atom a :: _ -> failwith ("algo " ^ a)
@@ -133,6 +135,8 @@ let adata_of s : adata = match lst s with
       | [k; d; tg; f] -> (natx k, ((zx d, natx tg), num_of f)) | _ -> failwith "roll") (lst l))
   | [Atom "trans"; l] -> DTrans (List.map (fun x -> match lst x with
       | [d; k; q; pr] -> (((zx d, natx k), num_of q), num_of pr) | _ -> failwith "trans") (lst l))
+  | [Atom "risk"; l] -> DRisk (List.map (fun x -> match lst x with
+      | [m; idx; cols] -> (natx m, (List.map zx (lst idx), frame_of cols)) | _ -> failwith "risk") (lst l))
   | _ -> failwith "adata"
 let rec spec_of s : astate nspec = match lst s with
   | [Atom "strat"; id; fi; kids; algos] ->
@@ -168,7 +172,7 @@ let err_name (e : err) = match e with
   | EBidofferIdx -> "EBidofferIdx" | ECustomNoBidoffer -> "ECustomNoBidoffer" | EZeroBase -> "EZeroBase"
   | EZeroNotl -> "EZeroNotl" | EFiChild -> "EFiChild" | EDupChild -> "EDupChild" | EDupColumn -> "EDupColumn"
   | ESizingStuck -> "ESizingStuck" | ESizingDiverged -> "ESizingDiverged" | ESizingLoop -> "ESizingLoop"
-  | EParentless -> "EParentless" | EAttr -> "EAttr" | EIndex -> "EIndex" | EType -> "EType" | EValue -> "EValue" | EZeroDiv -> "EZeroDiv"
+  | EParentless -> "EParentless" | EAttr -> "EAttr" | EIndex -> "EIndex" | EType -> "EType" | EValue -> "EValue" | ELinAlg -> "ELinAlg" | EZeroDiv -> "EZeroDiv"
   | ENanArith -> "ENanArith" | EOutOfFuel -> "EOutOfFuel" | EOther -> "EOther"
 
 let rec dump_node (path : string) (n : astate node) =
@@ -181,6 +185,8 @@ let rec dump_node (path : string) (n : astate node) =
       (pb s.s_needupdate) (pf s.s_outlay) (pcell s.s_bidoffer) (pf s.s_bidoffer_paid) (pf s.s_capital)
       (pf s.s_coupon) (pf s.s_holding_cost);
     Printf.printf "%s flags %s %s\n" path (pb s.s_intpos) (pb s.s_bo_set);
+    if s.s_risk <> [] then
+      Printf.printf "%s risk %s\n" path (plist (fun (k, v) -> string_of_int (int_of_nat k) ^ " " ^ pf v) s.s_risk);
     (match s.s_prices with
      | None -> Printf.printf "%s priced F\n" path
      | Some _ ->
@@ -202,6 +208,9 @@ let rec dump_node (path : string) (n : astate node) =
       (pf g.g_last_value) (pf g.g_last_notl) (pf g.g_last_price) (pf g.g_last_fee) (pf g.g_bidoffer_paid)
       (pb g.g_bankrupt);
     Printf.printf "%s flags %s %s %s %s\n" path (pb g.g_intpos) (pb g.g_bo_set) (pb g.g_fi) (pb g.g_paper_trade);
+    if g.g_risk <> [] then
+      Printf.printf "%s risk %s\n" path (plist (fun (k, v) -> string_of_int (int_of_nat k) ^ " " ^ pf v) g.g_risk);
+    List.iter (fun (k, col) -> Printf.printf "%s risks.%d %s\n" path (int_of_nat k) (plist pcell col)) g.g_risks;
     Printf.printf "%s kids %s\n" path (plist (fun k -> string_of_int (int_of_nat (node_id (Obj.magic 0) k))) kids);
     Printf.printf "%s lazy %s\n" path (plist (fun l -> string_of_int (int_of_nat l.lz_id)) lz);
     Printf.printf "%s univ %s\n" path (plist (fun (k, _) -> string_of_int (int_of_nat k)) g.g_univ);
